@@ -55,18 +55,23 @@ def run_one(s):
     rows = [{n: r[n] for n in names} for r in rows]
     tr = {"prm": [{n: v * U.F for n, v in r.items()} for r in rows]}
     dom = U.build(e)
-    attr(dom, names, rows, tr)
-    # single-row attributes (tightness of the box, per-row volume)
+    # single-row attributes first (tightness of the box, per-row volume), then the whole batch on the SAME object:
+    # an answer cached from an earlier parameter row must not leak into a later call
     tr["single"] = []
     for r_ in rows[:3] if rows else [{}]:
         t1 = {}
         attr(dom, names, [r_] if names else [], t1)
         tr["single"].append(t1)
+    attr(dom, names, rows, tr)
     # user-set volume overrides
     d2 = U.build(e)
     r = watched(lambda: (d2.set_volume(5.0), d2.volume(U.mk_params(names, rows)))[1])
     tr["uservol"] = fxv(r[1], VS) if r[0] == "ok" else []
     tr["uservol_exc"] = "" if r[0] == "ok" else (r[1] if len(r) > 1 else "hang")
+    # ... and density sampling uses the user-set volume (count = ceil(d * 5))
+    r = watched(lambda: len(d2.sample_random_uniform(d=2.0, params=U.mk_params(names, rows[:1]))), 6)
+    tr["usercount"] = r[1] if r[0] == "ok" else -1
+    tr["usercount_exc"] = "" if r[0] == "ok" else (r[1] if len(r) > 1 else "hang")
     # density sampling counts at one parameter row
     tr["counts"] = []
     row0 = rows[:1]
@@ -128,6 +133,12 @@ def run_one(s):
             full = {}
             attr(dom, names, [dict(r_, **bind) for r_ in rows], full)
             pe["full"] = full
+            # a second partial evaluation of the same original with other values must not affect D2
+            bind2 = {n: (v + 1) % 3 for n, v in bind.items()}
+            r4 = watched(lambda: dom(**{n: float(v) for n, v in bind2.items()}))
+            again = {}
+            attr(D2, rest, rrows, again)
+            pe["stable"] = r4[0] == "ok" and all(again[k] == pe[k] for k in ("nv", "vol", "box"))
             # the original is unchanged
             t2 = {}
             attr(dom, names, rows, t2)
